@@ -70,6 +70,7 @@ def run(rep: core.Report):
     _r17f(rep, reg)
     _r17g(rep)
     _r17h(rep)
+    _r17i(rep)
 
 
 # ---------------------------------------------------------------------------
@@ -740,6 +741,77 @@ def _r17g(rep):
     rep.instance("R17g", rel, "LammpsForcesLoader._parse", f"{len(findings)} inverse-permutation gathers", not findings, "see above", line=lp.lineno, nontrivial=False) if not findings else None
 
 
+
+def _r17i(rep):
+    """Lookup-index typing: an index obtained by looking a value up in a sequence belongs to the order of that sequence."""
+    rep.rule("R17i", "an index found by looking a value up in a sequence (Y.index(v), a dictionary built from enumerate(Y), np.where(Y == v)) subscripts only sequences in the order of Y: Y itself, or lists filled by append next to Y (same statement block, i.e. one entry per entry of Y); in the WIEN2k reader the forces of the inequivalent atoms are stored in case.scf order and must be addressed through the list of their phonopy atoms kept in the same order", 1)
+    n_inst = 0
+    for rel in sorted(core.python_files("phonopy/interface")):
+        tree = core.parse(rel)
+        for fn in [x for x in ast.walk(tree) if isinstance(x, ast.FunctionDef)]:
+            # order class of every list filled by append: the statement block of its appends (one block only), or the
+            # sequence iterated over when the append is the loop body's own statement (one entry per element)
+            blocks: dict[str, set] = {}
+            for st in ast.walk(fn):
+                if isinstance(st, ast.Expr) and isinstance(st.value, ast.Call) and isinstance(st.value.func, ast.Attribute) and st.value.func.attr == "append" and isinstance(st.value.func.value, ast.Name):
+                    par = getattr(st, "_parent", None)
+                    key = ("block", id(par), tuple(id(x) for x in getattr(par, "body", [])) if st in getattr(par, "body", []) else "orelse")
+                    if isinstance(par, ast.For) and st in par.body:
+                        it = par.iter
+                        if isinstance(it, ast.Call) and core.src(it.func) in ("enumerate", "zip") and it.args and all(isinstance(a, ast.Name) for a in it.args):
+                            key = ("seqs", frozenset(a.id for a in it.args), id(par))
+                        elif isinstance(it, ast.Name):
+                            key = ("seqs", frozenset([it.id]), id(par))
+                    blocks.setdefault(st.value.func.value.id, set()).add(key)
+            cls = {nm: next(iter(ks)) for nm, ks in blocks.items() if len(ks) == 1}
+
+            def dom(name):
+                return cls.get(name, ("name", name))
+
+            def same(a, b):
+                if a == b:
+                    return True
+                # a list with one entry per element of S is in the order of S
+                for x, y in ((a, b), (b, a)):
+                    if x[0] == "seqs" and y[0] == "name" and y[1] in x[1]:
+                        return True
+                return False
+
+            idx: dict[str, tuple] = {}
+            dicts: dict[str, tuple] = {}
+            for st in ast.walk(fn):
+                if not (isinstance(st, ast.Assign) and len(st.targets) == 1 and isinstance(st.targets[0], ast.Name)):
+                    continue
+                v, t = st.value, st.targets[0].id
+                if isinstance(v, ast.DictComp) and len(v.generators) == 1:
+                    g = v.generators[0]
+                    if isinstance(g.iter, ast.Call) and core.src(g.iter.func) == "enumerate" and g.iter.args and isinstance(g.iter.args[0], ast.Name) and isinstance(g.target, ast.Tuple) and len(g.target.elts) == 2 and core.src(v.value) == core.src(g.target.elts[0]):
+                        dicts[t] = dom(g.iter.args[0].id)
+            for st in ast.walk(fn):
+                if not (isinstance(st, ast.Assign) and len(st.targets) == 1 and isinstance(st.targets[0], ast.Name)):
+                    continue
+                v, t = st.value, st.targets[0].id
+                d = None
+                if isinstance(v, ast.Call) and isinstance(v.func, ast.Attribute) and v.func.attr == "index" and isinstance(v.func.value, ast.Name) and len(v.args) == 1:
+                    d = dom(v.func.value.id)
+                elif isinstance(v, ast.Subscript) and isinstance(v.value, ast.Name) and v.value.id in dicts:
+                    d = dicts[v.value.id]
+                if d is not None:
+                    idx[t] = d if t not in idx or idx[t] == d else ("mixed",)
+            for sub in ast.walk(fn):
+                if isinstance(sub, ast.Subscript) and isinstance(sub.ctx, ast.Load) and isinstance(sub.value, ast.Name) and isinstance(sub.slice, ast.Name) and sub.slice.id in idx:
+                    zi, zd = idx[sub.slice.id], dom(sub.value.id)
+                    if zi == ("mixed",) or sub.value.id in dicts:
+                        continue
+                    if zd[0] == "name" and not same(zi, zd):
+                        continue  # a sequence whose construction is not visible here: cannot tell
+                    n_inst += 1
+                    rep.instance("R17i", rel, fn.name, f"{core.src(sub)}: index looked up in the order of {'the list(s) built next to it' if zi[0] == 'block' else sorted(zi[1]) if zi[0] == 'seqs' else zi[1]}", same(zi, zd),
+                                 f"{sub.value.id} is filled in one order (the loop that appends to it) but {sub.slice.id} is the position of the value in {zi[1] if zi[0] == 'name' else 'another sequence'}: when the two orders differ (case.scf lists the inequivalent atoms in another order than phonopy's independent atoms) entry {sub.slice.id} belongs to a different atom, and nothing refuses", line=sub.lineno)
+    if not n_inst:
+        raise AnalysisError("R17i: no looked-up index subscripts a list built by append any more (WIEN2k force distribution on the confirmed tree)")
+
+
 def selftest():
     V = []
     b = lambda name, file, old, new, rule, expect="", **kw: V.append(dict(name=name, kind="break", file=file, old=old, new=new, rule=rule, expect=expect, **kw))
@@ -765,4 +837,6 @@ def selftest():
     b("lammps forces gathered through the ids", LMP, '        forces = np.zeros((num_atoms, 3), dtype="double")\n        indices_found = [False] * num_atoms\n        for i, line in enumerate(fp):\n            if i == num_atoms:\n                break\n            ary = line.split()\n            atom_id = int(ary[0])\n            indices_found[atom_id - 1] = True\n            forces[atom_id - 1] = np.array(ary[column_start:column_end], dtype="double")\n\n        assert all(indices_found)\n        self._forces = forces\n', '        ids = np.zeros(num_atoms, dtype="int64")\n        rows = np.zeros((num_atoms, 3), dtype="double")\n        for i, line in enumerate(fp):\n            if i == num_atoms:\n                break\n            ary = line.split()\n            ids[i] = int(ary[0])\n            rows[i] = [float(v) for v in ary[column_start:column_end]]\n        assert (np.sort(ids) == np.arange(1, num_atoms + 1)).all()\n        self._forces = np.array(rows[ids - 1], dtype="double", order="C")\n', "R17g", "rows[ids - 1]")
     b("fleur unpack regression", CALC, "        speci = optional_structure_info[1]\n        restlines = optional_structure_info[2]\n        fleur.write_fleur(filename, cell, speci, 1, restlines)", "        speci, restlines = optional_structure_info\n        fleur.write_fleur(filename, cell, speci, 1, restlines)", "R17f", "fleur")
     n("constant through a local alias", CALC, 'units["factor"] = PwscfToTHz', 'units["factor"] = PwscfToTHz * 1.0')
+    b("wien2k forces addressed through a table over phonopy's independent atoms", "phonopy/interface/wien2k.py", "        force_set = []\n        for i in range(natom):\n            j = indep_atoms_to_wien2k.index(map_atoms[i])", "        force_set = []\n        indep_index = {a: k for k, a in enumerate(independent_atoms)}\n        for i in range(natom):\n            j = indep_index[map_atoms[i]]", "R17i", "forces_remap")
+    n("wien2k lookup through a table over the list kept next to the forces", "phonopy/interface/wien2k.py", "        force_set = []\n        for i in range(natom):\n            j = indep_atoms_to_wien2k.index(map_atoms[i])", "        force_set = []\n        where = {a: k for k, a in enumerate(indep_atoms_to_wien2k)}\n        for i in range(natom):\n            j = where[map_atoms[i]]")
     return V
